@@ -283,7 +283,9 @@ def main(argv):
         "violations": len(violations),
     }
     os.makedirs(os.path.join(VERIF, "evidence"), exist_ok=True)
-    with open(os.path.join(VERIF, "evidence", prop + ".json"), "w") as f:
+    # a partial (--only) run never overwrites the property's evidence
+    evname = prop + (".partial" if only else "") + ".json"
+    with open(os.path.join(VERIF, "evidence", evname), "w") as f:
         json.dump(evidence, f, indent=1)
     print("%s %s: obligations=%d discharged=%d inconclusive=%d violations=%d known=%d paths=%d queries=%d wall=%.0fs" %
           (prop, tier, len(insts), discharged, len(inconclusive), len(violations), len(known_seen),
